@@ -381,7 +381,7 @@ def main():
     configs = []
     ne = {"TRI3": 14, "QUAD4": 4, "mixed": 38, "TRI6": 14, "TETRA4": 24, "PRISM6": 8}
     if tier == "quick":
-        plan = {"TRI3": [2, 3, 5, 14], "mixed": [2, 3, 4], "QUAD4": [2, 4], "TETRA4": [2, 3]}
+        plan = {"TRI3": [2, 3, 5, 14], "mixed": [2, 3, 5, 9, 12], "QUAD4": [2, 4], "TETRA4": [2, 3], "PRISM6": [3]}
     else:
         plan = {"TRI3": list(range(1, 15)), "mixed": list(range(2, 13)) + [20, 38], "QUAD4": [1, 2, 3, 4], "TRI6": [2, 3, 5, 8], "TETRA4": [2, 3, 4, 6, 9], "PRISM6": [2, 3, 4, 8]}
     for kind, ns in plan.items():
